@@ -358,3 +358,24 @@ Fixpoint hyper_b64 (n : nat) (mode : N) (buf : list N) (evs : list ev) : list so
 Definition obs_request_hyper (mode : N) (evs : list ev) : tr :=
   if inner_eos mode evs then Nd [Nd []; Nn 1]
   else let '(l, b) := hyper_b64 (b64_polls evs) mode [] evs in Nd [olist sout_tr l; obool b].
+
+(* ---------- the Encode direction as a state machine over (buf, inner body) ---------- *)
+(* GrpcWebCall has a staging buffer [buf]; poll_encode neither reads nor writes it: whatever
+   the inner body yields is translated and handed out in the same poll.  That is what makes
+   `Direction::Encode => self.inner.is_end_stream()` a correct is_end_stream: an encoder that
+   staged output in [buf] would have to look at [buf] there (Proofs/WebServer.v,
+   encode_is_end_stream_contract). *)
+Definition poll_encode_st (e : encoding) (buf : list N) (a : answer) : sout * list N :=
+  (poll_encode e a, buf).
+Definition encode_is_end_stream (mode : N) (buf : list N) (evs : list ev) : bool :=
+  inner_eos mode evs.
+Fixpoint drain_encode_st (e : encoding) (buf : list N) (evs : list ev) : list sout :=
+  match evs with
+  | [] => [SNone]
+  | x :: r =>
+      match poll_encode_st e buf (answer_of x) with
+      | (SPending, b) => drain_encode_st e b r
+      | (SData d, b) => SData d :: drain_encode_st e b r
+      | (o, _) => [o]
+      end
+  end.
